@@ -2,7 +2,7 @@ import PySMT.Proofs.C11Main
 /-!
 # C11 — CNF conversions and Ackermannization: advertised form and model-by-model equisatisfiability
 
-Models: `Impl/Rewritings/{CNF,PolCNF,Ackermann}.lean` (the code after the repairs F33, F36, F19, F20).
+Models: `Impl/Rewritings/{CNF,PolCNF,Ackermann}.lean` (the code after the repairs F33, F50, F52, F19, F20).
 `complete` + `sound` are the two halves of the property: every interpretation satisfying the input
 extends on the fresh symbols to one satisfying the output (`ext u I` / `extA u I` agree with `I` on
 the input's symbols: second conjunct), and every interpretation satisfying the output satisfies the
